@@ -9,9 +9,12 @@ Writer jobs   build the zone through the API, write it with the real writer unde
               lex the text back into abstract lines, re-read it with the real reader and
               record the projection and Zone ==.
 No verdicts here: Trace_ZoneFile.tla judges every event."""
+import base64
 import binascii
+import calendar
 import io
 import os
+import time
 
 import dns.btreezone
 import dns.exception
@@ -27,9 +30,20 @@ import dns.zonefile
 ORIGIN_LABELS = ["example"]
 ORIGIN = dns.name.from_text("example.")
 ZCLASSES = {"plain": dns.zone.Zone, "versioned": dns.versioned.Zone, "btree": dns.btreezone.Zone}
-TYPENUM = {"A": 1, "NS": 2, "CNAME": 5, "SOA": 6, "MX": 15, "TXT": 16, "NSEC": 47, "TYPE65280": 65280}
+TYPENUM = {"A": 1, "NS": 2, "CNAME": 5, "SOA": 6, "MX": 15, "TXT": 16, "KEY": 25, "RRSIG": 46, "NSEC": 47, "DNSKEY": 48,
+           "TYPE65280": 65280}
 NUMTYPE = {v: k for k, v in TYPENUM.items()}
-MNEMONIC = {1: "A", 2: "NS", 5: "CNAME", 6: "SOA", 15: "MX", 16: "TXT", 47: "NSEC"}
+MNEMONIC = {1: "A", 2: "NS", 5: "CNAME", 6: "SOA", 15: "MX", 16: "TXT", 25: "KEY", 46: "RRSIG", 47: "NSEC", 48: "DNSKEY"}
+TFMT = "%Y%m%d%H%M%S"
+
+
+def base(ty):
+    """"RRSIG/A" (the RRSIG rdataset covering A) -> "RRSIG"."""
+    return ty.split("/")[0]
+
+
+def b64(data):
+    return base64.b64encode(bytes(data)).decode()
 NNAMES = {"A": 0, "NS": 1, "CNAME": 1, "SOA": 2, "MX": 1, "TXT": 0, "NSEC": 1, "TYPE65280": 0}
 
 
@@ -109,8 +123,14 @@ def nsec_bitmap(types):
 
 def wire_of(ty, absnames, data):
     """RFC 1035 / 4034 wire form of an abstract rdata (names absolute, uncompressed)."""
+    ty = base(ty)
     if ty == "A" or ty == "TYPE65280" or ty == "TXT":
         return bytes(data)
+    if ty in ("DNSKEY", "KEY"):
+        return data[0].to_bytes(2, "big") + bytes(data[1:])
+    if ty == "RRSIG":
+        return (data[0].to_bytes(2, "big") + bytes(data[1:3]) + b"".join(x.to_bytes(4, "big") for x in data[3:6])
+                + data[6].to_bytes(2, "big") + wire_name(absnames[0]) + bytes(data[7:]))
     if ty in ("NS", "CNAME"):
         return wire_name(absnames[0])
     if ty == "MX":
@@ -123,7 +143,7 @@ def wire_of(ty, absnames, data):
 
 
 def rdata_tokens(ln, chunk=0):
-    ty, names, data = ln["ty"], ln["names"], ln["data"]
+    ty, names, data = base(ln["ty"]), ln["names"], ln["data"]
     if ln["gen"]:
         w = wire_of(ty, [r[1] for r in names], data)
         hx = binascii.hexlify(w).decode()
@@ -144,11 +164,18 @@ def rdata_tokens(ln, chunk=0):
         return [quote(s, bare_ok=(ln["lay"] == "parenc")) for s in txt_strings(data)]
     if ty == "NSEC":
         return [nm[0]] + [MNEMONIC[t] for t in data]
+    if ty in ("DNSKEY", "KEY"):
+        k = b64(data[3:])
+        return [str(data[0]), str(data[1]), str(data[2])] + ([k[:4], k[4:]] if len(k) > 4 else [k])
+    if ty == "RRSIG":
+        sg = b64(data[7:])
+        return ([MNEMONIC[data[0]], str(data[1]), str(data[2]), str(data[3]), time.strftime(TFMT, time.gmtime(data[4])),
+                 time.strftime(TFMT, time.gmtime(data[5])), str(data[6]), nm[0]] + ([sg[:8], sg[8:]] if len(sg) > 8 else [sg]))
     raise ValueError(ty)
 
 
 def type_text(ln):
-    ty = ln["ty"]
+    ty = base(ln["ty"])
     if ln["tg"] or ty == "TYPE65280":
         return "TYPE%d" % TYPENUM[ty]
     return ty
@@ -249,6 +276,13 @@ def emb_labels(name, relativize, origin):
 def project_rdata(rd, relativize, origin=ORIGIN):
     t = int(rd.rdtype)
     ty = NUMTYPE.get(t, "TYPE%d" % t)
+    if ty == "RRSIG" and not isinstance(rd, dns.rdata.GenericRdata):
+        return "RRSIG/" + MNEMONIC.get(int(rd.type_covered), "TYPE%d" % rd.type_covered), [
+            [emb_labels(rd.signer, relativize, origin)],
+            [int(rd.type_covered), int(rd.algorithm), int(rd.labels), int(rd.original_ttl), int(rd.expiration),
+             int(rd.inception), int(rd.key_tag)] + list(rd.signature)]
+    if ty in ("DNSKEY", "KEY") and not isinstance(rd, dns.rdata.GenericRdata):
+        return ty, [[], [int(rd.flags), int(rd.protocol), int(rd.algorithm)] + list(rd.key)]
     if isinstance(rd, dns.rdata.GenericRdata):
         return ty if ty == "TYPE65280" else ty + "!generic", [[], list(rd.data)]
     e = lambda n: emb_labels(n, relativize, origin)  # noqa: E731
@@ -280,12 +314,10 @@ def project_items(items, relativize, origin=ORIGIN):
     out = []
     for name, rds in items:
         own = owner_labels(name, relativize, origin)
-        if len(rds) == 0:
-            out.append([own, "EMPTY!", 0, [[], []]])
-        for rd in rds:
+        for rd in rds:          # an empty rdataset holds no record: it is not content
             ty, val = project_rdata(rd, relativize, origin)
-            if rds.covers != dns.rdatatype.NONE:
-                ty += "/covers"
+            if rds.covers != dns.rdatatype.NONE and ty != "RRSIG/" + MNEMONIC.get(int(rds.covers), "?"):
+                ty += "!covers"          # rdataset filed under another covered type than its rdata says
             out.append([own, ty, int(rds.ttl), val])
     out.sort(key=repr)
     return out
@@ -294,8 +326,6 @@ def project_items(items, relativize, origin=ORIGIN):
 def project_zone(zone):
     items = []
     for name, node in zone.nodes.items():
-        if len(node.rdatasets) == 0:
-            items.append((name, dns.rdataset.Rdataset(dns.rdataclass.IN, dns.rdatatype.TYPE0)))
         for rds in node.rdatasets:
             items.append((name, rds))
     return project_items(items, zone.relativize, zone.origin if zone.origin is not None else ORIGIN)
@@ -358,22 +388,97 @@ def read_job(job):
 
 
 # ------------------------------------------------------------------ building a zone through the API
+def make_rdata(ty, names, data, rel):
+    # built from the wire form (own encoder), not from text: independent of the reader under test
+    w = wire_of(ty, names, data)
+    return dns.rdata.from_wire(dns.rdataclass.IN, TYPENUM[base(ty)], w, 0, len(w), ORIGIN if rel else None)
+
+
+def make_name(own, rel):
+    name = dns.name.Name([l.encode() for l in own])
+    return name if rel else name.derelativize(ORIGIN)
+
+
 def build_zone(recs, zclass, rel, comments):
     zone = ZCLASSES[zclass](ORIGIN, relativize=rel)
     i = 0
     with zone.writer(True) as txn:
         for own, ty, ttl, (names, data) in recs:
-            # built from the wire form (own encoder), not from text: independent of the reader under test
-            w = wire_of(ty, names, data)
-            rd = dns.rdata.from_wire(dns.rdataclass.IN, TYPENUM[ty], w, 0, len(w), ORIGIN if rel else None)
+            rd = make_rdata(ty, names, data, rel)
             if comments:
                 i += 1
                 rd = rd.replace(rdcomment=" note %d" % i)
-            name = dns.name.Name([l.encode() for l in own])
-            if not rel:
-                name = name.derelativize(ORIGIN)
-            txn.add(name, ttl, rd)
+            txn.add(make_name(own, rel), ttl, rd)
     return zone
+
+
+# an rdata of each type used for an EMPTY rdataset (added, then removed again)
+DUMMY = {"A": ([], [10, 9, 9, 9]), "TXT": ([], [1, 120]), "MX": ([["x", "other"]], [1]),
+         "KEY": ([], [256, 3, 8, 7]), "NSEC": ([["x", "other"]], [1]),
+         "RRSIG/KEY": ([["x", "other"]], [25, 8, 2, 300, 1893456000, 1577836800, 1, 9]),
+         "RRSIG/NSEC": ([["x", "other"]], [47, 8, 2, 300, 1893456000, 1577836800, 1, 9])}
+CNAME_KIND = ("CNAME", "RRSIG/CNAME")
+
+
+def covers_of(ty):
+    return TYPENUM[ty.split("/")[1]] if "/" in ty else dns.rdatatype.NONE
+
+
+def build_zone_with_empties(recs, rel, comments, pattern):
+    """A plain dns.zone.Zone with the same records, built through Zone.find_rdataset(create=True) /
+    Rdataset.add / Rdataset.remove, with EMPTY rdatasets planted per `pattern`:
+    first / mid / last / firstlast position of every node's rdataset list, or ("nodes") whole
+    nodes that hold only empty rdatasets.  Empty rdatasets hold no record."""
+    zone = dns.zone.Zone(ORIGIN, relativize=rel)
+
+    def plant(name, ety):
+        rds = zone.find_rdataset(name, TYPENUM[base(ety)], covers_of(ety), create=True)
+        d = make_rdata(ety, DUMMY[ety][0], DUMMY[ety][1], rel)
+        rds.add(d, 1)
+        rds.remove(d)
+
+    nodes = {}
+    for own, ty, ttl, rd in recs:
+        nodes.setdefault(tuple(own), {}).setdefault(ty, []).append((ttl, rd))
+    if pattern == "nodes":
+        plant(make_name(["0"], rel), "A")
+    i = 0
+    for k, (own, types) in enumerate(nodes.items()):
+        name = make_name(list(own), rel)
+        has_cname = any(t in CNAME_KIND for t in types)
+        pool = [t for t in (("KEY", "NSEC", "RRSIG/KEY", "RRSIG/NSEC") if has_cname else ("TXT", "A", "MX")) if t not in types]
+        order = list(types)
+        plan = [(t, False) for t in order]
+        if pattern in ("first", "firstlast") and pool:
+            plan.insert(0, (pool[0], True))
+        if pattern == "mid" and pool:
+            plan.insert(1 if len(plan) > 1 else 0, (pool[0], True))
+        if pattern == "last" and pool:
+            plan.append((pool[0], True))
+        if pattern == "firstlast" and len(pool) > 1:
+            plan.append((pool[1], True))
+        for ty, empty in plan:
+            if empty:
+                plant(name, ty)
+                continue
+            rds = zone.find_rdataset(name, TYPENUM[base(ty)], covers_of(ty), create=True)
+            for ttl, (names, data) in types[ty]:
+                rd = make_rdata(ty, names, data, rel)
+                if comments:
+                    i += 1
+                    rd = rd.replace(rdcomment=" note %d" % i)
+                rds.add(rd, ttl)
+        if pattern == "nodes" and k == 0:
+            plant(make_name(["b"], rel), "TXT")
+            plant(make_name(["b"], rel), "A")
+    if pattern == "nodes":
+        plant(make_name(["z"], rel), "MX")
+    return zone
+
+
+def count_empties(zone):
+    return [sum(1 for n in zone.nodes.values() for r in n.rdatasets if len(r) == 0),
+            sum(1 for n in zone.nodes.values() if all(len(r) == 0 for r in n.rdatasets))]
 
 
 def make_style(st, rel):
@@ -479,6 +584,12 @@ def unwire(ty, w):
     """names (absolute refs) and data of a wire-form rdata."""
     if ty in ("A", "TYPE65280", "TXT"):
         return [], list(w)
+    if ty in ("DNSKEY", "KEY"):
+        return [], [int.from_bytes(w[:2], "big")] + list(w[2:])
+    if ty == "RRSIG":
+        n, i = unwire_name(w, 18)
+        return [["abs", n]], ([int.from_bytes(w[:2], "big"), w[2], w[3]] + [int.from_bytes(w[4 + 4 * k:8 + 4 * k], "big") for k in range(3)]
+                              + [int.from_bytes(w[16:18], "big")] + list(w[i:]))
     if ty in ("NS", "CNAME"):
         n, i = unwire_name(w, 0)
         if i != len(w):
@@ -537,9 +648,15 @@ def lex_rdata(ty, toks):
         for s in vals:
             d += [len(s)] + list(s)
         return False, [], d
+    inv = {v: k for k, v in MNEMONIC.items()}
     if ty == "NSEC":
-        inv = {v: k for k, v in MNEMONIC.items()}
         return False, [lex_ref(vals[0])], [inv[t.decode()] for t in vals[1:]]
+    if ty in ("DNSKEY", "KEY"):
+        return False, [], [int(vals[0]), int(vals[1]), int(vals[2])] + list(base64.b64decode(b"".join(vals[3:])))
+    if ty == "RRSIG":
+        tm = lambda x: calendar.timegm(time.strptime(x.decode(), TFMT))  # noqa: E731
+        return False, [lex_ref(vals[7])], ([inv[vals[0].decode()], int(vals[1]), int(vals[2]), int(vals[3]), tm(vals[4]), tm(vals[5]),
+                                            int(vals[6])] + list(base64.b64decode(b"".join(vals[8:]))))
     raise LexError(ty)
 
 
@@ -589,6 +706,8 @@ def lex_line(line):
             raise LexError("type " + s)
         ty, tg = s, False
     gen, names, data = lex_rdata(ty, toks[i + 1:])
+    if ty == "RRSIG":
+        ty = "RRSIG/" + MNEMONIC.get(data[0], "TYPE%d" % data[0])
     return {"k": "rr", "owner": owner, "ttl": ttl, "cls": cls, "ord": ordr, "ty": ty, "tg": tg, "gen": gen,
             "names": names, "data": data, "lay": "single"}, comment
 
@@ -602,7 +721,8 @@ def lex_text(text):
         ln, c = lex_line(p)
         if c is not None:
             comments += 1
-        lines.append(ln)
+        if ln["k"] != "blank":           # an empty line (a node without records) is layout
+            lines.append(ln)
     return lines, comments
 
 
@@ -651,8 +771,15 @@ def write_job(job):
     tr = {"tid": job["tid"], "kind": "write", "og": job["og"], "rel": rel, "zclass": zclass, "api": api, "rapi": rapi,
           "zone": recs, "style": st, "ev": []}
     ev = tr["ev"]
-    zone = build_zone(recs, zclass, rel, st["comments"])
-    ev.append({"op": "built", "zone": project_zone(zone)})
+    pattern = job.get("empties", "none")
+    if pattern != "none":
+        zone = build_zone_with_empties(recs, rel, st["comments"], pattern)
+        clean = build_zone(recs, "plain", rel, False)     # the same records without the empty rdatasets
+    else:
+        zone = build_zone(recs, zclass, rel, st["comments"])
+        clean = zone
+    tr["empties"] = pattern
+    ev.append({"op": "built", "zone": project_zone(zone), "nempty": count_empties(zone)})
     try:
         style = make_style(st, rel)
         raw = write_with(zone, api, style, st, job["work"])
@@ -687,7 +814,7 @@ def write_job(job):
                 z2 = dns.zone.from_file(fn, **kw)
             finally:
                 os.unlink(fn)
-        ev.append({"op": "reread", "res": "ok", "exc": "", "fam": "-", "zone": project_zone(z2), "eq": bool(z2 == zone),
+        ev.append({"op": "reread", "res": "ok", "exc": "", "fam": "-", "zone": project_zone(z2), "eq": bool(z2 == clean),
                    "origin": labels_of(z2.origin) if z2.origin is not None else ["NONE!"]})
     except BaseException as e:  # noqa: BLE001
         ev.append({"op": "reread", "res": "err", "exc": type(e).__name__, "fam": family(e), "zone": [], "eq": False,
